@@ -335,7 +335,12 @@ namespace
 	   && a->get_import () != nullptr
 	   && (a = a->get_import ().get ()));
 
-    return std::make_unique <value_die> (a->get_dwctx (), par_die, 0, d);
+    // The parent is in the same context as A: it is reached through the
+    // same import points.
+    return std::make_unique <value_die>
+      (a->get_dwctx (),
+       d == doneness::cooked ? a->get_import () : nullptr,
+       par_die, 0, d);
   }
 }
 
